@@ -298,16 +298,18 @@ def cxx_build(pid, name, sources, flags=(), libs=(), timeout=1800):
     link_flags = [f for f in flags if f.startswith("-fsanitize") or f in ("-pthread", "-g", "-flto")]
     cmd = [CXX] + link_flags + objs + ["-o", out] + list(libs)
     stamp = out + ".link.json"
+    # objects / archives passed through `libs` (e.g. the instrumented runtime) are link inputs too
+    libhash = {l: _sha(l) for l in libs if isinstance(l, str) and not l.startswith("-") and os.path.isfile(l)}
     try:
         st = json.load(open(stamp))
-        fresh = st["cmd"] == cmd and os.path.exists(out) and not any(ch for _, ch in res)
+        fresh = st["cmd"] == cmd and os.path.exists(out) and not any(ch for _, ch in res) and st.get("libhash") == libhash
     except (OSError, ValueError, KeyError):
         fresh = False
     if not fresh:
         rc, o, e = sh(cmd, timeout=timeout)
         if rc != 0:
             raise BuildError("link of %s failed (rc=%d):\n%s" % (name, rc, (o + e)[-4000:]))
-        json.dump({"cmd": cmd}, open(stamp, "w"))
+        json.dump({"cmd": cmd, "libhash": libhash}, open(stamp, "w"))
         log("built %s/%s in %.1fs" % (pid, name, time.time() - t0))
     return out
 
@@ -334,17 +336,21 @@ def shim_runtime_objects(extra_flags=(), timeout=1800):
 
 
 def find_tbb_lib():
-    """Directory of /repo's built libtbb (rebuilt from the current tree by ensure_repo_built)."""
-    b = os.path.join(REPO, "_build")
-    for d in sorted(os.listdir(b)) if os.path.isdir(b) else []:
-        if os.path.exists(os.path.join(b, d, "libtbb.so")):
-            return os.path.join(b, d)
+    """Directory of the built libtbb of $VERIF_REPO (rebuilt from the current tree by ensure_repo_built); when a scratch
+    tree given through VERIF_REPO has no _build (header-only experiments) the library of /repo is used."""
+    for root in (REPO, "/repo"):
+        b = os.path.join(root, "_build")
+        for d in sorted(os.listdir(b)) if os.path.isdir(b) else []:
+            if os.path.exists(os.path.join(b, d, "libtbb.so")):
+                return os.path.join(b, d)
     return None
 
 
 def ensure_repo_built(targets=("tbb", "tbbmalloc"), timeout=3600):
     """Bring /repo/_build's libraries up to date with the working tree (ninja is incremental)."""
     b = os.path.join(REPO, "_build")
+    if not os.path.isdir(b):
+        return find_tbb_lib()
     with LeanLock():
         rc, o, e = sh(["cmake", "--build", b, "--target"] + list(targets) + ["-j", str(NCPU)], timeout=timeout)
     if rc != 0:
